@@ -256,6 +256,10 @@ func (k *Checker) registerCommitted(n *Node, st *raft.VerifState, from, to uint6
 	x := k.nc[n.id]
 	for i := from + 1; i <= to; i++ {
 		e := x.entryAt(i)
+		if e == nil && k.c.vg != nil && i > k.gMax() {
+			// E2: the ground truth is the abstract group's committed sequence
+			e = k.c.vg.truthAt(i)
+		}
 		if e == nil {
 			// Covered by a snapshot on this node; must already be known.
 			if i > k.gMax() {
@@ -266,6 +270,12 @@ func (k *Checker) registerCommitted(n *Node, st *raft.VerifState, from, to uint6
 		}
 		if i <= k.gBase {
 			continue
+		}
+		if k.c.vg != nil {
+			k.c.vg.checkAgainstTruth(k, n, i, e)
+			if k.c.viol != nil {
+				return
+			}
 		}
 		h := hashEntry(e)
 		if g := k.gAt(i); g != nil {
